@@ -1,6 +1,7 @@
 import GridVerif.Props.C19
 import GridVerif.Props.C19.State
 import GridVerif.Props.C19.BReject
+import GridVerif.Props.C19.T1D
 
 #print axioms GridVerif.C19.safe_init
 #print axioms GridVerif.C19.step_safe
@@ -38,3 +39,8 @@ import GridVerif.Props.C19.BReject
 #print axioms GridVerif.C19.b_history_ignores_rejected_calls
 #print axioms GridVerif.C19.b_history_after_rejection_at
 #print axioms GridVerif.C19.b_partial_no_rejection
+#print axioms GridVerif.C19.t1d_guards_precede_state
+#print axioms GridVerif.C19.t1d_accepted_is_method_call
+#print axioms GridVerif.C19.t1d_rejected_leaves_no_trace
+#print axioms GridVerif.C19.t1d_guard_after_state_fails_at
+#print axioms GridVerif.C19.b_history_any_entry_point
